@@ -1,22 +1,136 @@
-(* C04 - failure cancellation is exact.  Statements only; proofs in CancelProofs.v. *)
+(* C04 - failure cancellation is exact.  Statements only; models in Cancel.v, proofs in CancelProofs.v,
+   constants/predicates of the result records in Gen/ResultGen.v (regenerated from /repo). *)
 From Coq Require Import String List ZArith NArith Bool.
 From Jade Require Import Base Cancel CancelProofs.
 From Jade.Gen Require Import ResultGen.
 Import ListNotations.
+Open Scope list_scope.
 
-(* the specification function unfolds along the dependency graph (acyclic scenarios) *)
+(* ---- the specification function ---- *)
 Theorem c04_reference_step : forall sc, acyclic sc -> forall n j, find_job sc n = Some j ->
   reference sc n = if jflag j && existsb (fun d => bad (reference sc d)) (jdeps j) then Canceled else Finished (jrc j).
 Proof. exact reference_step. Qed.
 Print Assumptions c04_reference_step.
 
-(* every row JADE writes is exactly one of successful / failed / canceled (generated predicates) *)
+Theorem c04_reference_canceled_iff : forall sc, acyclic sc -> forall n j, find_job sc n = Some j ->
+  (reference sc n = Canceled <-> jflag j = true /\ exists d, In d (jdeps j) /\ bad (reference sc d) = true).
+Proof. exact reference_canceled_iff. Qed.
+Print Assumptions c04_reference_canceled_iff.
+
+(* ---- (4) every row JADE writes is exactly one of successful / failed / canceled ---- *)
 Theorem c04_classification_exact : forall r, jade_row r ->
   b2n (is_successful (r_rc r) (r_status r)) + b2n (is_failed (r_rc r) (r_status r)) + b2n (is_canceled (r_rc r) (r_status r)) = 1.
 Proof. exact classification_exact. Qed.
 Print Assumptions c04_classification_exact.
 
-(* the submitter's `while need_to_rerun` loop ends within #jobs + 1 iterations *)
+Theorem c04_classification_matches_outcome : forall r, jade_row r ->
+  (is_canceled (r_rc r) (r_status r) = true <-> row_outcome r = Canceled) /\
+  (is_failed (r_rc r) (r_status r) = true <-> exists rc, row_outcome r = Finished rc /\ rc <> 0%Z) /\
+  (is_successful (r_rc r) (r_status r) = true <-> row_outcome r = Finished 0).
+Proof. exact classification_matches_outcome. Qed.
+Print Assumptions c04_classification_matches_outcome.
+
+(* the canceled records: non-zero return code, read back as canceled, and counted as a failure by both loops *)
+Theorem c04_cancel_records : forall n,
+  is_canceled (r_rc (sub_cancel_row n)) (r_status (sub_cancel_row n)) = true /\
+  is_canceled (r_rc (node_cancel_row n)) (r_status (node_cancel_row n)) = true /\
+  r_rc (sub_cancel_row n) <> 0%Z /\ r_rc (node_cancel_row n) <> 0%Z /\
+  sub_is_failure (r_rc (sub_cancel_row n)) = true /\ sub_is_failure (r_rc (node_cancel_row n)) = true /\
+  node_is_failure (r_rc (node_cancel_row n)) = true.
+Proof. exact cancel_records. Qed.
+Print Assumptions c04_cancel_records.
+
+(* ---- (1) submitter level ---- *)
 Theorem c04_update_completed_terminates : forall feeds jobs, update_completed feeds jobs <> None.
 Proof. exact update_completed_terminates. Qed.
 Print Assumptions c04_update_completed_terminates.
+
+(* after the fix-point: a job is canceled iff it was NOT_SUBMITTED, flagged, and in some iteration k its
+   then-remaining blockers met failed_k ([cancels]; an empty blocker set never does); one canceled row per
+   canceled job; canceled => DONE with no blockers; otherwise state unchanged and the blockers of a waiting
+   job shrink exactly by the names reported completed ([remaining], see c04_remaining_spec) *)
+Theorem c04_update_completed_cancels_iff : forall feeds jobs u,
+  update_completed feeds jobs = Some u -> NoDup (map c_name jobs) ->
+  (forall j, In j jobs ->
+     (In (c_name j) (u_canceled u) <-> is_waiting j = true /\ c_flag j = true /\ cancels (c_blocked j) (u_log u) = true)) /\
+  u_rows u = map sub_cancel_row (u_canceled u) /\
+  (forall j, In j jobs -> exists j', In j' (u_jobs u) /\ c_name j' = c_name j /\ c_flag j' = c_flag j /\
+     (In (c_name j) (u_canceled u) -> c_state j' = DONE /\ c_blocked j' = []) /\
+     (~ In (c_name j) (u_canceled u) -> c_state j' = c_state j /\
+        c_blocked j' = if is_waiting j then remaining (c_blocked j) (u_log u) else c_blocked j)).
+Proof. exact update_completed_cancels_iff. Qed.
+Print Assumptions c04_update_completed_cancels_iff.
+
+Theorem c04_remaining_spec : forall log b x,
+  In x (remaining b log) <-> In x b /\ forall e, In e log -> ~ In x (snd e).
+Proof. exact remaining_spec. Qed.
+Print Assumptions c04_remaining_spec.
+
+(* ---- (2) node level ---- *)
+Theorem c04_check_completions_terminates : forall fin out queued, check_completions fin out queued <> None.
+Proof. exact check_completions_terminates. Qed.
+Print Assumptions c04_check_completions_terminates.
+
+Theorem c04_check_completions_cancels_iff : forall failed name q,
+  (cc_job failed name q = inr (q_name q) <-> q_blocking q <> [] /\ q_flag q = true /\ meets (q_blocking q) failed = true) /\
+  (forall n, cc_job failed name q = inr n -> n = q_name q) /\
+  (forall q', cc_job failed name q = inl q' ->
+     q_name q' = q_name q /\ q_flag q' = q_flag q /\ forall x, In x (q_blocking q') <-> In x (q_blocking q) /\ x <> name).
+Proof. exact check_completions_cancels_iff. Qed.
+Print Assumptions c04_check_completions_cancels_iff.
+
+(* ---- (3) both levels: whatever sequence of batchings, starts, node polls and submitter rounds, every row
+   written is the reference outcome of its job, every started job is one the reference lets run, and a job
+   with a canceled row was never started ---- *)
+Theorem c04_level_agnostic : forall sc, acyclic sc -> NoDup (map jname sc) ->
+  forall evs s, sys_run sc (sys_init sc) evs = Some s ->
+  (forall r, In r (s_rows s) -> row_outcome r = reference sc (r_name r)) /\
+  (forall n, In n (s_launched s) -> exists j, find_job sc n = Some j /\ reference sc n = Finished (jrc j)) /\
+  (forall r, In r (s_rows s) -> row_outcome r = Canceled -> ~ In (r_name r) (s_launched s)).
+Proof. exact level_agnostic. Qed.
+Print Assumptions c04_level_agnostic.
+
+(* flagged: canceled row iff some blocker's reference outcome is failed/canceled; unflagged: never a canceled row *)
+Theorem c04_cancel_exact : forall sc, acyclic sc -> NoDup (map jname sc) ->
+  forall evs s, sys_run sc (sys_init sc) evs = Some s ->
+  forall r j, In r (s_rows s) -> find_job sc (r_name r) = Some j ->
+  (row_outcome r = Canceled <-> jflag j = true /\ exists d, In d (jdeps j) /\ bad (reference sc d) = true) /\
+  (jflag j = false -> row_outcome r = Finished (jrc j)).
+Proof. exact cancel_exact. Qed.
+Print Assumptions c04_cancel_exact.
+
+(* ---- non-vacuity ---- *)
+Definition ex_sc : scenario :=
+  [ {| jname := 3; jdeps := [2%N]; jflag := true; jrc := 0 |};     (* dependents listed before their blockers *)
+    {| jname := 2; jdeps := [1%N]; jflag := true; jrc := 0 |};
+    {| jname := 1; jdeps := []; jflag := false; jrc := 2 |};
+    {| jname := 4; jdeps := [1%N]; jflag := false; jrc := 0 |};
+    {| jname := 5; jdeps := [4%N; 3%N]; jflag := true; jrc := 0 |} ].
+Example ex_acyclic : acyclic ex_sc /\ NoDup (map jname ex_sc).
+Proof.
+  split.
+  - exists (fun n => match n with 1%N => 0 | 2%N => 1 | 3%N => 2 | 4%N => 1 | _ => 3 end).
+    intros j Hj. cbn in Hj. repeat (destruct Hj as [<-|Hj]; [cbn; split; [auto with arith|intros d Hd; cbn in Hd; repeat (destruct Hd as [<-|Hd]; [cbn; auto with arith|]); destruct Hd]|]). destruct Hj.
+  - apply nodupbN_spec. reflexivity.
+Qed.
+Example ex_reference : map (fun j => (jname j, reference ex_sc (jname j))) ex_sc =
+  [(3%N, Canceled); (2%N, Canceled); (1%N, Finished 2); (4%N, Finished 0); (5%N, Canceled)].
+Proof. vm_compute. reflexivity. Qed.
+(* j1, j2 batched together (try-add-blocked): j2 is canceled ON THE NODE; j3 and then j5 are canceled BY THE
+   SUBMITTER (chain through the node-level canceled row, two loop iterations); unflagged j4 runs *)
+Definition ex_events : list event :=
+  [ EvBatch 1 [1%N; 2%N]; EvStart 1 1; EvNode 1 [[(1%N, 2%Z)]];
+    EvSubmitter [[finish_row 1 2; node_cancel_row 2]];
+    EvBatch 2 [4%N]; EvStart 2 4; EvNode 2 [[(4%N, 0%Z)]]; EvSubmitter [[finish_row 4 0]] ].
+Example ex_run : option_map (fun s => (map (fun r => (r_name r, row_outcome r)) (s_rows s), s_launched s)) (sys_run ex_sc (sys_init ex_sc) ex_events)
+  = Some ([(1%N, Finished 2); (2%N, Canceled); (3%N, Canceled); (5%N, Canceled); (4%N, Finished 0)], [1%N; 4%N]).
+Proof. vm_compute. reflexivity. Qed.
+Example ex_update_completed :
+  option_map (fun u => (u_canceled u, length (u_log u), map c_blocked (u_jobs u)))
+    (update_completed [[finish_row 1 2; finish_row 4 0]]
+       [ {| c_name := 3; c_blocked := [2%N]; c_flag := true; c_state := NOT_SUBMITTED |};
+         {| c_name := 2; c_blocked := [1%N]; c_flag := true; c_state := NOT_SUBMITTED |};
+         {| c_name := 6; c_blocked := [4%N; 7%N]; c_flag := true; c_state := NOT_SUBMITTED |};
+         {| c_name := 1; c_blocked := []; c_flag := false; c_state := SUBMITTED |} ])
+  = Some ([2%N; 3%N], 3, [[]; []; [7%N]; []]).
+Proof. vm_compute. reflexivity. Qed.
